@@ -59,6 +59,7 @@ Definition s_absop (_ : unit) (o : sop) : aop :=
   match o with
   | SCreate h mac => {| a_touch := [h]; a_atomic := true; a_kind := KAlloc h None |}
   | SRemove id => {| a_touch := []; a_atomic := true; a_kind := KReleaseKey id |}
+  | SSetNext _ => {| a_touch := []; a_atomic := true; a_kind := KOther |}
   end.
 Definition s_modes : list imode :=
   [ {| im_shared := false; im_range := fun k => negb (k =? 0) && (k <? 65536) |};
